@@ -147,3 +147,112 @@ def impl_fluent(text):
     full["body"] = " ".join(body)
     full["contract"] = contract
     return full
+
+
+# ---------------------------------------------------------------- C01 round 4 (additive)
+def impl_session(fmt, cmds):
+    """one parser OBJECT over a call sequence: ["R", text] = readUnicode, ["W", 0|1] = walk / __iter__.
+    Returns the canonical results of the walks (Ops/C01.lean opSess) and, per walk, what the oracle needs."""
+    p = get_parser(fmt)
+    walks = []
+    text = None
+    for c in cmds:
+        if c[0] == "R":
+            text = c[1]
+            p.readUnicode(text)
+            continue
+        loc = bool(c[1])
+        it = iter(p) if loc else p.walk()
+        out = ["done"]
+        n = 0
+        limit = 2 * len(text or "") + 8
+        kinds = []
+        joined = []
+        for e in it:
+            out.append(show_entry(e))
+            kinds.append(kind_of(e))
+            joined.append(e.all)
+            n += 1
+            if n > limit:
+                out[0] = "runaway"
+                break
+        walks.append({"canon": " | ".join(out), "loc": loc, "text": text, "n": n, "joined": "".join(joined),
+                      "fel": getattr(p.ctx, "filter_empty_lines", None) if p.ctx is not None else None})
+    return {"canon": " || ".join(w["canon"] for w in walks), "walks": walks}
+
+
+def fluent_body_c(text):
+    """body of fluent.syntax with the junk `content` strings, and the contract of Ops/C01.lean contractB,
+    evaluated independently on the real AST"""
+    from fluent.syntax import FluentParser as FTLParser, ast as ftl
+    res = FTLParser().parse(text)
+    toks = []
+    ok = True
+    last = 0
+    for entry in res.body:
+        s, e = entry.span.start, entry.span.end
+        if not (last <= s <= e <= len(text)):
+            ok = False
+        last = e
+        content = ""
+        ks = ke = vs = ve = -1
+        if isinstance(entry, ftl.Term):
+            k = "T"
+            ks, ke = entry.id.span.start - 1, entry.id.span.end
+        elif isinstance(entry, ftl.Message):
+            k = "M"
+            ks, ke = entry.id.span.start, entry.id.span.end
+        elif isinstance(entry, ftl.Junk):
+            k = "J"
+            content = entry.content
+            if content != text[s:e]:
+                ok = False
+        elif isinstance(entry, ftl.BaseComment):
+            k = "C"
+        else:
+            k = "O"
+            if s != e:
+                ok = False
+        if k in "MT":
+            if entry.value is not None:
+                vs, ve = entry.value.span.start, entry.value.span.end
+                if not (s <= vs <= ve <= e):
+                    ok = False
+            if not (s <= ks <= ke <= e):
+                ok = False
+        toks.append("%s %d %d %d %d %d %d t:%s" % (k, s, e, ks, ke, vs, ve, ",".join(str(ord(c)) for c in content)))
+    return " ".join(toks), ok
+
+
+def impl_fluent_c(text):
+    full = impl_fluent(text)
+    bodyc, ok = fluent_body_c(text)
+    full["bodyc"] = bodyc
+    full["contract2"] = ok
+    return full
+
+
+def impl_noctx(fmt):
+    """walk()/iter() of a parser object that never loaded anything"""
+    p = get_parser(fmt)
+    return {"full": [show_entry(e) for e in p.walk()], "loc": [show_entry(e) for e in p]}
+
+
+def _t(s):
+    return "t:" + ",".join(str(ord(c)) for c in s)
+
+
+def impl_po_strings(text):
+    """evaluated msgid / msgctxt / msgstr of every PO entity, in the form of Ops/C01.lean opPoStrings"""
+    p = get_parser("po")
+    p.readUnicode(text)
+    out = []
+    n = 0
+    for e in p.walk():
+        n += 1
+        if n > 2 * len(text) + 8:
+            break
+        if kind_of(e) == "E":
+            msgid, msgctxt = e.stringlist_key
+            out.append([e.span[0], "%s %s %s" % (_t(msgid), "None" if msgctxt is None else _t(msgctxt), _t(e.stringlist_val))])
+    return out
